@@ -365,6 +365,10 @@ pub fn check(tier: &str, started: Instant) -> i32 {
     }
     let scratch = runner::verif_path(&format!("target/scratch/p-{}", std::process::id()));
     let _ = std::fs::create_dir_all(&scratch);
+    if !agg.aborted_runs.is_empty() {
+        eprintln!("HARNESS-ERROR: a worker process died during run indexes {:?} (stack overflow or abort inside the system under test or the harness); reproduce with: sim worker <world> <tier> <seed> <i> <i+1> /tmp/x.json", agg.aborted_runs);
+        return 2;
+    }
     let findings = runner::load_findings();
     let mut violations = 0u64;
     let mut known_seen = vec![];
